@@ -199,3 +199,19 @@ Example C05_nonvacuous :
   slice_bits 0xabcd 12 4 = 0xbc /\ concat_bits 0xa 4 0x5 4 = 0xa5 /\ not_bytes 5 = -6 /\ not_bytes (-200) = 199 /\
   bv (convert_le (mk 0x1234 (Some 16%N)) 16) = 0x3412.
 Proof. vm_compute. repeat split; reflexivity. Qed.
+
+(* --- the printer/parser round trip: operators bind with the documented precedence and associativity --- *)
+From CA Require Import Spec.Printer Proofs.C05Round.
+Theorem C05_parse_print_full : forall e, wf_print e -> (depth_full e <= PARSE_DEPTH_MAX)%nat ->
+  exists w, parse_text (print_full e) = POk e w /\ cur w = bytes_len (print_full e).
+Proof. exact C05Round.C05_parse_print_full. Qed.
+Theorem C05_parse_print_min : forall e, wf_print e -> (depth_min e <= PARSE_DEPTH_MAX)%nat ->
+  exists w, parse_text (print_min e) = POk e w /\ cur w = bytes_len (print_min e).
+Proof. exact C05Round.C05_parse_print_min. Qed.
+Theorem C05_parse_print_min_height : forall e, wf_print e -> (2 * height e < PARSE_DEPTH_MAX)%nat ->
+  exists w, parse_text (print_min e) = POk e w /\ cur w = bytes_len (print_min e).
+Proof. exact C05Round.C05_parse_print_min_height. Qed.
+Theorem C05_printer_table : forall o, exists fn comb ops nxt,
+  nth_error documented_levels (binop_prec o - 1) = Some (fn, comb, ops, nxt)
+  /\ In (tkind_name (binop_tok o), binop_name o) ops /\ In (binop_text o, binop_tok o) specials.
+Proof. exact C05Round.C05_printer_table. Qed.
